@@ -146,6 +146,7 @@ func oracle(c *Case) (facts, error) {
 }
 
 func run(t interface{ Fatalf(string, ...any) }, c *Case) {
+	defer fix.Track(prop, "rows", c, c.Summary())()
 	f, err := oracle(c)
 	if err != nil && strings.HasPrefix(err.Error(), "INFRA:") {
 		panic(err.Error())
